@@ -156,6 +156,31 @@ func genCfg(t *rapid.T, fl flavour) caseCfg {
 			}
 		}
 	}
+	// further pool definitions for control-plane events
+	np := 0
+	if fl.event == "pools" {
+		np = pick(t, "npools", 2, 3)
+	} else if chance(t, "withpools", 1, 3) {
+		np = pick(t, "npools", 1, 2)
+	}
+	for i := 0; i < np; i++ {
+		l := fmt.Sprintf("pool%d.", i)
+		d := poolDef{ID: c.PoolID + uint32(pick(t, l+"idoff", 1, 1, 5, 1000))}
+		if (i == 0 && fl.event == "pools") || (i != 1 && chance(t, l+"dup", 1, 2)) {
+			d.ID = c.PoolID // a second definition for the id that is taken
+		}
+		d.Bits = pick(t, l+"bits", 24, 16, 20, 23, 25, 26, 27, 28, 29, 30)
+		d.Net = fmt.Sprintf("198.18.%d.0", 16*i+rapid.IntRange(0, 15).Draw(t, l+"net"))
+		d.GwHigh = chance(t, l+"gwhigh", 1, 3)
+		for j, n := 0, pick(t, l+"ndns", 0, 1, 2, 2); j < n; j++ {
+			d.DNS = append(d.DNS, pick(t, fmt.Sprintf("%sdns%d", l, j), "8.8.4.4", "1.0.0.1", "149.112.112.112", "10.53.0.3", "192.168.1.253", "208.67.220.220"))
+		}
+		if len(d.DNS) == 2 && d.DNS[0] == d.DNS[1] {
+			d.DNS[1] = "9.9.9.9"
+		}
+		d.LeaseS = pick(t, l+"lease", 60, 120, 600, 3600, 65535, 65536, 86400, 604800, rapid.IntRange(60, 86400).Draw(t, l+"leaser"))
+		c.Pools = append(c.Pools, d)
+	}
 	return c
 }
 
@@ -172,6 +197,13 @@ func genVariants(t *rapid.T, label string) []variant {
 		v.Enc.PCP = byte(pick(t, l+"pcp", 0, 0, 5, 7))
 		v.Enc.IHL = pick(t, l+"ihl", 5, 5, 5, 5, 5, 6, 7, 10, 15, rapid.IntRange(5, 15).Draw(t, l+"ihlr"))
 		v.Enc.OptZero = v.Enc.IHL > 5 && chance(t, l+"optzero", 1, 3)
+		// the request's IP header fields that survive into the reply header, over their whole range
+		v.Enc.Hdr = true
+		v.Enc.ID = uint16(pick(t, l+"id", 0, 0x1234, 0xffff, 0xfffe, 0x8000, 0x00ff, 0xff00, int(rapid.Uint16().Draw(t, l+"idr")), int(rapid.Uint16().Draw(t, l+"idr2"))))
+		v.Enc.TOS = byte(pick(t, l+"tos", 0, 0, 0x10, 0xc0, 0xb8, 0xff, 0x01, int(rapid.Byte().Draw(t, l+"tosr"))))
+		v.Enc.Frag = uint16(pick(t, l+"frag", 0, 0, 0x4000))
+		v.Enc.TTL = byte(pick(t, l+"ttl", 64, 128, 255, 1, 63, rapid.IntRange(1, 255).Draw(t, l+"ttlr")))
+		v.Steer = chance(t, l+"steer", 2, 5)
 		v.Clock = pick(t, l+"clock", "uptime", "uptime", "wall", "wall", "past")
 		v.ClockS = rapid.Uint32().Draw(t, l+"clocks")
 		v.Place = pick(t, l+"place", 0, 0, 1)
@@ -387,6 +419,70 @@ func genCase(t *rapid.T, fl flavour) tcase {
 			add(genSweep(t, l+"a.", cfg, fam)...)
 		}
 	}
+	sweepAll := func(l string) {
+		for _, b := range bases {
+			add(genSweep(t, fmt.Sprintf("%sb%d.", l, b), cfg, family(cfg, b))...)
+		}
+	}
+	// control-plane events; every one is followed by probes from every client
+	control := func(l string, ev string) {
+		dup, second := -1, -1
+		for i, d := range cfg.Pools {
+			if d.ID == cfg.PoolID && dup < 0 {
+				dup = i + 1
+			}
+			if d.ID != cfg.PoolID && second < 0 {
+				second = i + 1
+			}
+		}
+		switch ev {
+		case "pool-dup":
+			if dup < 0 {
+				return
+			}
+			add(op{Kind: "addpool", P: dup})
+			sweepAll(l + "a.")
+		case "pool-second":
+			if second < 0 {
+				return
+			}
+			add(op{Kind: "addpool", P: second})
+			if chance(t, l+"mkdefault", 3, 4) {
+				add(op{Kind: "setdefault", P: second})
+			}
+			// a client that holds nothing gets its address from whatever pool is the default now
+			c := bases[rapid.IntRange(0, len(bases)-1).Draw(t, l+"c")]
+			add(sure(genMsg(t, l+"rel.", k, "release", c)))
+			add(genDORA(t, l+"n.", k, c)...)
+			sweepAll(l + "a.")
+			if chance(t, l+"dup2", 1, 3) {
+				add(op{Kind: "addpool", P: second}) // the second pool's id is taken now, too
+				sweepAll(l + "b.")
+			}
+		case "pool-remove":
+			p := pick(t, l+"which", 0, 0, second)
+			if p < 0 {
+				p = 0
+			}
+			add(op{Kind: "rmpool", P: p})
+			sweepAll(l + "a.")
+			if chance(t, l+"readd", 2, 3) {
+				q := p
+				if p == 0 && dup > 0 && chance(t, l+"other-def", 1, 2) {
+					q = dup // the id comes back with another definition
+				}
+				add(op{Kind: "addpool", P: q})
+				if chance(t, l+"dora", 1, 2) {
+					add(genDORA(t, l+"n.", k, bases[rapid.IntRange(0, len(bases)-1).Draw(t, l+"c")])...)
+				}
+				sweepAll(l + "b.")
+			}
+		case "srvcfg":
+			add(op{Kind: "srvcfg", Alt: chance(t, l+"alt", 1, 2)})
+			sweepAll(l + "a.")
+		}
+	}
+	ctlKinds := []string{"pool-dup", "pool-second", "srvcfg", "pool-remove"}
 	evKinds := []string{"release", "decline", "expiry", "retire", "release-offered"}
 	possible := func(ev string, b int) bool {
 		switch ev {
@@ -408,6 +504,17 @@ func genCase(t *rapid.T, fl flavour) tcase {
 				ev = ""
 			}
 		}
+		if ev == "pools" {
+			if chance(t, l+"ctlhere", 1, 2) {
+				control(l, pick(t, l+"ctl", ctlKinds...))
+				return
+			}
+			ev = ""
+		}
+		if ev == "" && len(cfg.Pools) > 0 && chance(t, l+"isctl", 1, 3) {
+			control(l, pick(t, l+"ctl", ctlKinds...))
+			return
+		}
 		if ev == "" {
 			cand := append([]string{}, evKinds...)
 			for _, e := range []string{"swap", "move", "reshape"} {
@@ -424,6 +531,14 @@ func genCase(t *rapid.T, fl flavour) tcase {
 	}
 	if identityEvents[fl.event] || fl.event == "retire" || fl.event == "release-offered" {
 		event("ev0.", fl.event, 0)
+	}
+	if fl.event == "pools" {
+		// each control-plane event with high probability, the disruptive one (RemovePool) last
+		for i, ev := range ctlKinds {
+			if chance(t, fmt.Sprintf("ctl%d", i), 3, 4) {
+				control(fmt.Sprintf("ctl%d.", i), ev)
+			}
+		}
 	}
 	n := rapid.IntRange(2, 7).Draw(t, "nbody")
 	for i := 0; i < n; i++ {
